@@ -318,7 +318,22 @@ theorem dialectsDecAux_size : ∀ (fuel : Nat) (rest : Bytes) (acc names : List 
           List.length_take, List.length_drop, List.length_cons] at ih ⊢
         omega
 
+/-- a failing `SMB_STRING.Unmarshal` rewrites the two numbers of the receiver and leaves its buffer alone -/
+theorem strDecFail_size (b : Bytes) (old : Tup) : tupSize (strDecFail b old) = tupSize old := by
+  unfold strDecFail
+  split
+  · split
+    · split <;> simp [tupSize]
+    · simp [tupSize]
+  · rfl
+
 theorem std_alloc : AllocCodecs std stdAlloc stdAllocConst where
+  fail_le typ w old := by
+    rw [show std.decFail typ w old = decFail typ w old from rfl]
+    unfold decFail
+    split
+    · rw [strDecFail_size]; omega
+    · omega
   alloc_le typ w := by
     have := SmbString.allocOf_le w
     unfold stdAlloc stdAllocConst
